@@ -179,7 +179,24 @@ func byteLayout(ev *tf.Eval, t *tf.Term, bufWrites map[string][]*tf.Term, starre
 					_ = v
 				}
 				kind, why = "u32be/any", ""
-				out = append(out, layoutItem{Kind: kind, Source: v, Starred: starred, Why: why})
+				st := starred
+				// binary.Write(buf, BigEndian, X[i]) once per iteration: the loop must run over every element of X (O8.1)
+				if rv := ev.Resolve(v); rv.K == tf.KIdx {
+					if iv := stripConv(rv.Args[1]); iv.K == tf.KIndVar {
+						st = true
+						n, okN := loopRangeZeroTo(iv.Loop)
+						if !okN || !tf.Eq(stripConv(n), tf.Len(rv.Args[0])) {
+							bound := "an unrecognised range"
+							if okN {
+								bound = "0.." + describe(n) + "-1"
+							}
+							kind, why = "?", "the loop packs "+describe(rv.Args[0])+"[i] for i over "+bound+", not over every element of that slice"
+						}
+					} else {
+						kind, why = "?", "a single element "+describe(rv)+" is written, not the slice"
+					}
+				}
+				out = append(out, layoutItem{Kind: kind, Source: v, Starred: st, Why: why})
 			}
 			return
 		}
